@@ -11,7 +11,7 @@ fn ilist(rng: &mut Rng, n: usize) -> String {
 
 /// One block of forms; `u` is a unique suffix for global names.
 pub fn block(rng: &mut Rng, u: usize, tags: &mut Vec<String>) -> Vec<String> {
-    let t = rng.below(23);
+    let t = rng.below(24);
     tags.push(format!("cont-t{}", t));
     let a = rng.range(1, 9);
     let b = rng.range(2, 5);
@@ -367,6 +367,32 @@ pub fn block(rng: &mut Rng, u: usize, tags: &mut Vec<String>) -> Vec<String> {
                 format!("(list saved{u} r{u} (eq? saved{u} r{u}))", u = u),
                 format!("(if (< cnt{u} 2) (begin (set! cnt{u} (+ cnt{u} 1)) (k{u} 30)) 'done)", u = u),
                 format!("(list saved{u} r{u})", u = u),
+            ]
+        }
+        22 => {
+            // the same continuation re-entered several times within ONE evaluation: after each re-entry the
+            // computation returns below the capture point, the caller reuses that part of the stack, and the next
+            // invocation comes from a deeper frame (a helper procedure behind pending operands, a map callback)
+            let rounds = 3 + rng.below(3);
+            let pending: Vec<String> = (0..1 + rng.below(4)).map(|i| format!("{}", (i + 1) * 1000)).collect();
+            let via_map = rng.below(2) == 0;
+            let again = if via_map {
+                format!("(map (lambda (x) (k{u} (+ x n{u}))) '(10 20 30))", u = u)
+            } else {
+                format!("(+ {} (jump{u} n{u}))", pending.join(" "), u = u)
+            };
+            vec![
+                format!("(define k{u} #f)", u = u),
+                format!("(define n{u} 0)", u = u),
+                format!("(define trail{u} '())", u = u),
+                format!("(define (f{u}) (list 'a {a} (call/cc (lambda (c) (set! k{u} c) 0))))", u = u, a = a),
+                format!("(define (jump{u} v) (k{u} v))", u = u),
+                format!(
+                    "(define (g{u}) (let ((r (f{u}))) (set! trail{u} (cons r trail{u})) (set! n{u} (+ n{u} 1)) (if (< n{u} {rounds}) {again} r)))",
+                    u = u, rounds = rounds, again = again
+                ),
+                format!("(g{u})", u = u),
+                format!("(list n{u} trail{u})", u = u),
             ]
         }
         _ => {
